@@ -133,6 +133,23 @@ def sparse_selftest(seed=0, rounds=12):
     assert _raises(lambda: sp.coo_array(([], ([], [])), dtype=bool)) is ValueError
     assert _raises(lambda: M.coo_array(([], ([], [])), dtype=bool)) is ValueError
     assert _raises(lambda: M.DCoo(([], ([], [])), dtype=bool)) is ValueError; n_cmp += 3
+    # aliasing: which conversions share the data array with their source (in-place updates of the result visible in the source)
+    def visible(mk, conv, mutate=lambda M: M.data.__imul__(10.0)):
+        src = mk()
+        before = [float(x) for x in src.data]
+        out = conv(src)
+        out.data *= 10.0
+        return [float(x) for x in src.data] != before
+    D2 = np.array([[0., 1.], [2., 0.]])
+    for nm, conv in (("coo.tocoo()", lambda M: M.tocoo()), ("coo.tocsr()", lambda M: M.tocsr()), ("coo.copy()", lambda M: M.copy()), ("2*coo", lambda M: 2.0 * M)):
+        assert visible(lambda: sp.coo_array(D2), conv) == visible(lambda: M.coo_array(D2), conv), ("aliasing", nm); n_cmp += 1
+    for nm, conv in (("csr.tocoo()", lambda M: M.tocoo()), ("csr.tocoo(copy=True)", lambda M: M.tocoo(copy=True)), ("csr.tocsr()", lambda M: M.tocsr()),
+                     ("csr.copy()", lambda M: M.copy()), ("2*csr", lambda M: 2.0 * M)):
+        assert visible(lambda: sp.csr_array(D2), conv) == visible(lambda: M.csr_array(D2), conv), ("aliasing", nm); n_cmp += 1
+    dr, dm = np.array([1., 2.]), np.array([1., 2.], dtype=object)
+    cr, cm = sp.coo_array((dr, ([0, 1], [1, 0])), shape=(2, 2)), M.coo_array((dm, ([0, 1], [1, 0])), shape=(2, 2))
+    cr.data *= 3.0; cm.data *= 3.0
+    assert (dr[0] == 3.0) == (float(dm[0]) == 3.0), "constructor aliasing of the data array"; n_cmp += 1
     # dok counting
     rk = sp.dok_array((3, 3)); mk = M.DDok((3, 3))
     for (i, j) in [(0, 1), (0, 1), (2, 2), (1, 0)]:
